@@ -92,6 +92,18 @@ func generate(w *mon.W) {
 type stok struct {
 	K parser.TokenKind
 	V string
+	N *Number
+}
+
+func sameTok(a stok, k parser.TokenKind, v string) bool {
+	if a.K != k {
+		return false
+	}
+	if k == parser.TokenNumber {
+		n, ok := NumberValue(v)
+		return ok && a.N != nil && n.Equal(a.N)
+	}
+	return a.V == v
 }
 
 // Check decides one source.
@@ -106,10 +118,18 @@ func Check(src string, r *mon.R) {
 		r.Count("rejected", 1)
 		return
 	}
-	toks, o := mon.Scan(src)
-	if o.Anomalous() {
-		r.Inconclusive("foreign_scan_anomaly")
-		return
+	// the source side is tokenised by the reference tokenizer (C09 keeps the
+	// real Scan equal to it), so that a lexer that merges or drops tokens
+	// cannot hide what the parser accepted
+	rtoks := Tokens(src)
+	type tokv struct {
+		Kind  parser.TokenKind
+		Value string
+		Num   *Number
+	}
+	var toks []tokv
+	for _, t := range rtoks {
+		toks = append(toks, tokv{t.Kind, t.Val, t.Num})
 	}
 	printed, perr := Reprint(src, stmts)
 	if perr != "" {
@@ -124,14 +144,14 @@ func Check(src string, r *mon.R) {
 				continue
 			}
 		}
-		st = append(st, stok{t.Kind, t.Value})
+		st = append(st, stok{t.Kind, t.Value, t.Num})
 	}
 	for len(st) > 0 && st[len(st)-1].K == parser.TokenSemi {
 		st = st[:len(st)-1]
 	}
 	i, j := 0, 0
 	for i < len(st) || j < len(printed) {
-		if i < len(st) && j < len(printed) && st[i].K == printed[j].K && st[i].V == printed[j].V {
+		if i < len(st) && j < len(printed) && sameTok(st[i], printed[j].K, printed[j].V) {
 			i++
 			j++
 			continue
